@@ -86,7 +86,7 @@ func init() {
 			return false
 		}
 		nt := false
-		for _, z := range o.Case.IDs {
+		for _, z := range o.UIDs {
 			l := o.Level(z)
 			c.Rec.Count("level_cases")
 			c.Rec.Count("mult:" + mclass(l.Facts.MaxMult))
@@ -126,7 +126,7 @@ func init() {
 		}
 		fs, st := monC04(o)
 		nt := false
-		for _, z := range o.Case.IDs {
+		for _, z := range o.UIDs {
 			l := o.Level(z)
 			s := st[z]
 			c.Rec.Count("level_cases")
@@ -179,9 +179,9 @@ func init() {
 		fs, checked, m2 := monC18(o)
 		c.Rec.Add("level_cases_with_M<=2", int64(checked))
 		c.Rec.Add("level_cases_with_M=2", int64(m2))
-		c.Rec.Add("level_cases_with_M>=3_not_judged", int64(len(o.Case.IDs)-checked))
+		c.Rec.Add("level_cases_with_M>=3_not_judged", int64(len(o.UIDs)-checked))
 		nt := m2 > 0
-		for _, z := range o.Case.IDs {
+		for _, z := range o.UIDs {
 			l := o.Level(z)
 			if l.Facts.MaxMult > 2 {
 				continue
